@@ -222,6 +222,109 @@ func (g *tgen) lit() js_ast.Expr {
 	}
 }
 
+// optional-chain flavour of a chain-capable node (mostly none)
+func (g *tgen) oc() js_ast.OptionalChain {
+	switch g.r.Intn(10) {
+	case 0:
+		return js_ast.OptionalChainStart
+	case 1:
+		return js_ast.OptionalChainContinue
+	}
+	return js_ast.OptionalChainNone
+}
+
+// a chain of 1..d property / index / call links over base; a link without a
+// chain flag over a link with one is the end of a parenthesized chain "(a?.b).c"
+func (g *tgen) chainOver(base js_ast.Expr, d int) js_ast.Expr {
+	e := base
+	n := 1 + g.r.Intn(d)
+	for i := 0; i < n; i++ {
+		oc := js_ast.OptionalChainNone
+		switch g.r.Intn(6) {
+		case 0:
+			oc = js_ast.OptionalChainStart
+		case 1:
+			oc = js_ast.OptionalChainContinue
+		}
+		switch g.r.Intn(5) {
+		case 0, 1:
+			e = mk(&js_ast.EDot{Target: e, Name: []string{"q", "y", "z"}[g.r.Intn(3)], OptionalChain: oc, CanBeRemovedIfUnused: g.r.Chance(10)})
+		case 2:
+			e = mk(&js_ast.EIndex{Target: e, Index: g.leaf(), OptionalChain: oc})
+		default:
+			var args []js_ast.Expr
+			if g.r.Bool() {
+				args = append(args, g.leaf())
+			}
+			e = mk(&js_ast.ECall{Target: e, Args: args, OptionalChain: oc, CanBeUnwrappedIfUnused: g.r.Chance(20)})
+		}
+	}
+	return e
+}
+
+// "a != null", "null != a", "a == null", "null == a" over a clone of id
+func (g *tgen) nullCheck(id js_ast.Expr, ne bool) js_ast.Expr {
+	op := js_ast.BinOpLooseEq
+	if ne {
+		op = js_ast.BinOpLooseNe
+	}
+	if g.r.Chance(10) {
+		op = []js_ast.OpCode{js_ast.BinOpStrictEq, js_ast.BinOpStrictNe}[g.r.Intn(2)] // near miss
+	}
+	if g.r.Chance(30) {
+		return mk(&js_ast.EBinary{Op: op, Left: mk(js_ast.ENullShared), Right: clone(id)})
+	}
+	return mk(&js_ast.EBinary{Op: op, Left: clone(id), Right: mk(js_ast.ENullShared)})
+}
+
+// the shapes of the optional-chain insertion of SimplifyUnusedExpr:
+// "a != null && a.b.c", "a == null || a.b()", also over parenthesized chains
+func (g *tgen) guardedChain() js_ast.Expr {
+	id := g.ident()
+	if g.r.Chance(85) {
+		id.Data.(*js_ast.EIdentifier).MustKeepDueToWithStmt = false
+	}
+	and := g.r.Bool()
+	op := js_ast.BinOpLogicalOr
+	if and {
+		op = js_ast.BinOpLogicalAnd
+	}
+	if g.r.Chance(8) {
+		and = !and // near miss: "a == null && a.b"
+	}
+	base := clone(id)
+	if g.r.Chance(10) {
+		base = g.ident()
+	}
+	return mk(&js_ast.EBinary{Op: op, Left: g.nullCheck(id, and), Right: g.chainOver(base, 3)})
+}
+
+// a call marked pure that is an optional call or continues an optional chain
+func (g *tgen) pureChainCall() js_ast.Expr {
+	var args []js_ast.Expr
+	for i, n := 0, g.r.Intn(3); i < n; i++ {
+		switch g.r.Intn(4) {
+		case 0:
+			args = append(args, g.probeCall())
+		case 1:
+			args = append(args, g.ident())
+		case 2:
+			args = append(args, g.expr(1))
+		default:
+			args = append(args, g.lit())
+		}
+	}
+	t := g.ident()
+	oc := js_ast.OptionalChainStart
+	if g.r.Chance(40) {
+		t = g.chainOver(t, 2)
+		if g.r.Bool() {
+			oc = js_ast.OptionalChainContinue
+		}
+	}
+	return mk(&js_ast.ECall{Target: t, Args: args, OptionalChain: oc, CanBeUnwrappedIfUnused: g.r.Chance(90)})
+}
+
 func (g *tgen) probeCall() js_ast.Expr {
 	return mk(&js_ast.ECall{Target: mk(&js_ast.EIdentifier{Ref: ast.Ref{InnerIndex: uint32(1000 + g.r.Intn(3))}})})
 }
@@ -286,9 +389,9 @@ func (g *tgen) expr(d int) js_ast.Expr {
 		return mk(&js_ast.EIf{Test: g.expr(d - 1), Yes: g.expr(d - 1), No: g.expr(d - 1)})
 	case 11:
 		t := g.expr(d - 1)
-		return mk(&js_ast.EDot{Target: t, Name: []string{"x", "y", "constructor"}[g.r.Intn(3)], CanBeRemovedIfUnused: g.r.Chance(15), IsSymbolInstance: g.r.Chance(10)})
+		return mk(&js_ast.EDot{Target: t, Name: []string{"x", "y", "constructor"}[g.r.Intn(3)], OptionalChain: g.oc(), CanBeRemovedIfUnused: g.r.Chance(15), IsSymbolInstance: g.r.Chance(10)})
 	case 12:
-		return mk(&js_ast.EIndex{Target: g.expr(d - 1), Index: g.expr(d - 1)})
+		return mk(&js_ast.EIndex{Target: g.expr(d - 1), Index: g.expr(d - 1), OptionalChain: g.oc()})
 	case 13, 14:
 		n := g.r.Intn(3)
 		var args []js_ast.Expr
@@ -301,12 +404,12 @@ func (g *tgen) expr(d int) js_ast.Expr {
 		}
 		t := g.ident()
 		if g.r.Chance(30) {
-			t = mk(&js_ast.EDot{Target: g.ident(), Name: "m"})
+			t = mk(&js_ast.EDot{Target: g.ident(), Name: "m", OptionalChain: g.oc()})
 		}
 		if g.r.Chance(20) {
 			return mk(&js_ast.ENew{Target: t, Args: args, CanBeUnwrappedIfUnused: g.r.Chance(40)})
 		}
-		return mk(&js_ast.ECall{Target: t, Args: args, CanBeUnwrappedIfUnused: g.r.Chance(30)})
+		return mk(&js_ast.ECall{Target: t, Args: args, OptionalChain: g.oc(), CanBeUnwrappedIfUnused: g.r.Chance(30)})
 	case 15:
 		n := g.r.Range(0, 3)
 		t := &js_ast.ETemplate{HeadCooked: utf16([]string{"", "h"}[g.r.Intn(2)])}
@@ -861,6 +964,23 @@ func extraCases(r *Rng, n int, tier string, cf *CoqFile, st *Stats) {
 				e = mk(&js_ast.EUnary{Op: js_ast.UnOpVoid, Value: e})
 			}
 		}
+		if i%7 == 1 || i%7 == 2 {
+			// optional-chain insertion (incl. parenthesized chains: finding J) and
+			// pure calls inside optional chains (finding K)
+			if i%7 == 1 {
+				e = g.guardedChain()
+			} else {
+				e = g.pureChainCall()
+			}
+			switch r.Intn(6) {
+			case 0:
+				e = mk(&js_ast.EBinary{Op: js_ast.BinOpComma, Left: g.probeCall(), Right: e})
+			case 1:
+				e = mk(&js_ast.EUnary{Op: js_ast.UnOpVoid, Value: e})
+			case 2:
+				e = mk(&js_ast.EIf{Test: g.ident(), Yes: e, No: g.lit()})
+			}
+		}
 		s := coqExpr(e)
 		noOC := r.Chance(25)
 		var unsupported compat.JSFeature
@@ -877,7 +997,31 @@ func extraCases(r *Rng, n int, tier string, cf *CoqFile, st *Stats) {
 	var mi []string
 	for i := 0; i < nt; i++ {
 		test, yes, no := g.expr(2), g.expr(2), g.expr(2)
-		switch r.Intn(12) {
+		switch r.Intn(15) {
+		case 11, 12:
+			// "a != null ? a.b.c : undefined" => "a?.b.c" (incl. parenthesized chains)
+			id := g.ident()
+			ne := r.Bool()
+			test = g.nullCheck(id, ne)
+			nonNull, null := g.chainOver(clone(id), 3), mk(js_ast.EUndefinedShared)
+			if r.Chance(10) {
+				null = g.lit()
+			}
+			if ne {
+				yes, no = nonNull, null
+			} else {
+				yes, no = null, nonNull
+			}
+		case 13:
+			// "a != null ? a : b" => "a ?? b"
+			id := g.ident()
+			ne := r.Bool()
+			test = g.nullCheck(id, ne)
+			if ne {
+				yes, no = clone(id), g.expr(1)
+			} else {
+				yes, no = g.expr(1), clone(id)
+			}
 		case 0:
 			no = clone(yes)
 		case 1:
